@@ -111,10 +111,20 @@ REG.assume_note("C18 library facts about str.strip('.') / split('.') / '.'.join 
                                       "; ".join("%s: %s" % kv for kv in sorted(LIBRARY_FACTS.items()))))
 
 
+def _concrete(s):
+    """a symbolic string whose term is a literal -> the Python string (scenario contracts)"""
+    if isinstance(s, Sym) and s.k == "str":
+        v = z3.simplify(s.t)
+        if z3.is_string_value(v):
+            return v.as_string()
+    return s
+
+
 def _ext_strip(E, args, kwargs):
     s = args[0]
     if len(args) != 2 or args[1] != '.':
         raise Unsupported("str.strip with an argument other than '.' (line %d)" % E.cur_line)
+    s = _concrete(s)
     if isinstance(s, str):
         return s.strip('.')
     r = STRIP(zstr(s))
@@ -126,6 +136,7 @@ def _ext_split(E, args, kwargs):
     s = args[0]
     if len(args) != 2 or args[1] != '.':
         raise Unsupported("str.split with an argument other than '.' (line %d)" % E.cur_line)
+    s = _concrete(s)
     if isinstance(s, str):
         return E.list_from_values(s.split('.'), STR)
     t = zstr(s)
@@ -142,6 +153,11 @@ def _ext_join(E, args, kwargs):
         raise Unsupported("str.join other than '.'.join(list of str) (line %d)" % E.cur_line)
     m = E.llen(lst)
     a = E.larrs(lst)[0]
+    mc = z3.simplify(m)
+    if z3.is_int_value(mc):
+        parts = [_concrete(Sym(z3.Select(a, j), "str")) for j in range(mc.as_long())]
+        if all(isinstance(x, str) for x in parts):
+            return '.'.join(parts)
     r = E.fresh("joined", _S)
     j = z3.Int("j!jn%d" % next(E.counter))
     pre = z3.And(m >= 1, z3.Select(a, 0) != z3.StringVal(""), z3.Select(a, m - 1) != z3.StringVal(""),
@@ -807,6 +823,48 @@ contract(FS, "Store.addNode", "C18", params=P_NAME, setup=_setup_mut, externals=
          requires=["wf(self)"], modifies=[_mod_tree],
          ensures=["wf(self)"] + ["added_node('%s', self, name, result, old(tree_snap(self)))" % p_ for p_ in ADDED_PARTS] + [LABELS],
          raises={"ValueError": [UNCHANGED]}, returns=NODE)
+
+
+# ---- concrete scenario (second contract of add / addNode): an empty store and the path 'zz..b' -----------------
+# The general `raises ValueError: unchanged` obligation quantifies over all stores and paths; when the code violates
+# it the solver often cannot build a model of the quantified invariants (status unknown).  The scenario states the
+# same clause for ONE concrete input (DESIGN.md section 6 item 10), so that a violation is decided with a replayable
+# counterexample; on a tree that honours the clause it is one more discharged instance.
+SCENARIO_NAME = "zz..b"
+
+
+def _setup_scenario(E):
+    _setup(E)
+    env = E.frame.env
+    root = E.rd_field(env["self"], "shares")
+    E.wr_field(root, "isshare", False)
+    E.wr_field(root, "_name", "")
+    E.set_ddom(_dict(root), z3.K(_S, z3.BoolVal(False)))
+    if "share" in env:
+        E.assume(env["share"].t != root.t)
+        E.wr_field(env["share"], "isshare", True)
+        E.wr_field(env["share"], "name", SCENARIO_NAME)
+        E.wr_field(env["share"], "store", None)
+
+
+def _mk_scenario(rng, i, cex, nr):
+    from ioflo.base import storing
+    store = object.__new__(storing.Store)
+    store.name = "c18"
+    store.stamp = None
+    store.shares = storing.Node().byName('')
+    if "share" in nr.params:
+        return {"self": store, "share": storing.Share(name=SCENARIO_NAME)}
+    return {"self": store, "name": SCENARIO_NAME}
+
+
+contract(FS, "Store.add", "C18", params=P_ADD, setup=_setup_scenario, externals=EXT, inline={"Share.changeStore"},
+         frame=False, raises={"ValueError": [UNCHANGED]}, replay=dict(make=_mk_scenario, count=1),
+         note="scenario: empty store, share named 'zz..b' (must be rejected with the store unchanged)")
+contract(FS, "Store.addNode", "C18", params=dict(self=Ref("Store"), name=("const", SCENARIO_NAME)),
+         setup=_setup_scenario, externals=EXT, frame=False, raises={"ValueError": [UNCHANGED]},
+         replay=dict(make=_mk_scenario, count=1),
+         note="scenario: empty store, path 'zz..b' (must be rejected with the store unchanged)")
 
 
 # ------------------------------------------------------------------------------------------------ change
